@@ -124,6 +124,8 @@ package mvs
 //@   ensures every-entry: result.1 == nil ==> (forall j: int :: 0 <= j && j < len(buildList) ==> (has(result.0, buildList[j].Path) && result.0[buildList[j].Path] == buildList[j].Version))
 //@   ensures nothing-else: result.1 == nil ==> (forall k: string :: has(result.0, k) ==> (exists j: int :: 0 <= j && j < len(buildList) && buildList[j].Path == k))
 //@   modifies heap, smap
+//@   callsite newReqs: assert hands-over-every-root-requirement: $0 != nil && len($0.Requirements) == len(versions) && arr($0.Requirements) == arr(versions)
+//@   loop over root.Requirements: step edge-is-the-requirement: when true ensures len(versions) == old(len(versions)) + 1
 //@   loop over buildList: invariant versionMap != nil && rangeindex < len(buildList)
 //@   loop over buildList: invariant distinct: forall i: int, j: int :: 0 <= i && i < j && j < len(buildList) ==> buildList[i].Path != buildList[j].Path
 //@   loop over buildList: invariant every-entry: forall j: int :: 0 <= j && j <= rangeindex ==> (has(versionMap, buildList[j].Path) && versionMap[buildList[j].Path] == buildList[j].Version)
